@@ -90,16 +90,6 @@ def coverage(ctx, events):
     return c
 
 
-def crash_signature(out):
-    """A Go panic / fatal error in the harness process: which shisui frame is innermost?"""
-    m = re.search(r"^(panic: .*|fatal error: .*)$", out, re.M)
-    if not m:
-        return None
-    frames = re.findall(r"^(github\.com/zen-eth/shisui/[^\s(]+(?:\([^)]*\))?[^\s]*)\(", out, re.M)
-    frames += re.findall(r"^\s+(/repo/[^\s:]+):\d+", out, re.M)
-    return {"panic": m.group(1)[:300], "frames": frames[:6]}
-
-
 def run(ctx):
     p, thorough, seed = ctx.prop, ctx.tier == "thorough", ctx.seed
     if not ctx.replay and not os.environ.get('VERIF_SKIP_DESIGN'):   # (the env switch is for mutation experiments only)
@@ -122,7 +112,7 @@ def run(ctx):
         try:
             vlib.harness(ctx, full, timeout=3000)
         except NoVerdict as e:
-            sig = crash_signature(str(e))
+            sig = vlib.crash_signature(str(e))
             if sig and any("portalwire" in f for f in sig["frames"]) and p == "C07":
                 vlib.violation(ctx, "table operation crashed the process: %s at %s" % (sig["panic"], sig["frames"][:3]),
                                {"label": label, "harness_args": [str(a) for a in full], "seed": ctx.seed, "crash": sig}, tag="panic")
